@@ -201,6 +201,8 @@ var brokenBits = []string{
 	"{{slice .Vector 5 1}}", "{{len 3}}", "{{$u}}", "{{call .Vector}}", "{{.Vector | nope}}", "{{define \"D\"}}x", "{{/* open",
 	"{{eq .Vector 1}}", "{{index .Vector \"a\"}}", "{{.ExportWithString}}", "{{.ExportWith nil}}", "{{printf \"%d\" .Vector .}}{{.Nope}}",
 	"{{template \"ZZ\"}}", "{{lt .Vector 3}}", "{{}}", "{{.}}{{..}}", "{{break}}",
+	// names other generated programs define: must still be undefined here
+	"{{template \"T1\" .}}", "{{template \"T2\"}}", "{{template \"B1\" .}}",
 }
 
 // genTemplate returns a template program for a report of the given level.
